@@ -25,7 +25,7 @@ func genSegment(p *PRNG) string {
 	case 1:
 		return "s"
 	case 2:
-		return PickOne(p, []string{"home", "pepe.jpg", "Ünïcödé", "日本語", " ", ".", ".."})
+		return PickOne(p, []string{"home", "pepe.jpg", "Ünïcödé", "日本語", " ", ".", "..", "100%", "a%%b.txt", "My%20Report.pdf", "%s%d%v", "%!(NOVERB)"})
 	case 3:
 		return string(p.Bytes(1 + p.Intn(6))) // arbitrary bytes (may contain '/', split by the code)
 	case 4:
@@ -95,6 +95,14 @@ func runC20(r *RunCtx) error {
 			}
 			if hp != fttypes.MerklePath(strings.Join(segs[:k-1], "/")) || hc != hexsha(segs[k-1]) {
 				r.Finding("C20/client-split", "MerkleHelper(parent/child) is not (MerklePath(parent), H(child))", map[string]interface{}{"path_hex": hex.EncodeToString([]byte(path)), "path": path})
+			}
+		}
+		// the helper a client hashes a child name with (types.HashThenHex) is plain hex(sha256(name)), whatever the name contains
+		for _, sg := range segs {
+			hx := fttypes.HashThenHex(sg)
+			r.Case("fn", fmt.Sprintf("HashHex %s %s", cStr(sg), cStr(hx)), map[string]interface{}{"fn": "HashThenHex", "in_hex": hex.EncodeToString([]byte(sg))})
+			if hx != hexsha(sg) {
+				r.Finding("C20/hash-then-hex", "HashThenHex(name) != hex(sha256(name)): a client derives a different child address than the plain path's", map[string]interface{}{"name": sg, "name_hex": hex.EncodeToString([]byte(sg))})
 			}
 		}
 		// distinct segment sequences -> distinct addresses
